@@ -1,0 +1,48 @@
+//go:build verif
+
+// Contracts for govc (/verif): C30 peer authentication. Comment-only file.
+// Hash functions, key derivation and signature verification are uninterpreted functions of the BYTE CONTENT
+// of their arguments: `seq(x)` is the abstract value of a byte string (slice window or byte array).
+
+package crypto
+
+//@ uninterp Blake3Of(s mathint) Hash
+//@ uninterp Sha3Of(s mathint) Hash
+//@ uninterp SigOK(key mathint, message mathint, sig mathint) bool
+//@ uninterp DeriveOf(key mathint) mathint
+//@ uninterp PublicOf(key mathint) mathint
+//@ uninterp CanonicalScalar(key mathint) bool
+
+//@ assume func Sha256Hash(data)
+//@   -- sha3.Sum256 of the content (external dependency: golang.org/x/crypto/sha3)
+//@   modifies nothing
+//@   ensures result == Sha3Of(seq(data))
+
+//@ assume func (publicKey *Key) Verify(message, sig)
+//@   -- Ed25519-style verification (sha512 + edwards25519): a predicate of the three byte strings
+//@   requires publicKey != nil
+//@   modifies nothing
+//@   ensures result <==> SigOK(seq(*publicKey), seq(message), seq(sig))
+
+//@ assume func (k Key) DeterministicHashDerive
+//@   -- NewKeyFromSeed(sha3(k) || sha3(k)): reduces mod l, so the result is a canonical scalar
+//@   modifies nothing
+//@   ensures seq(result) == DeriveOf(seq(k)) && CanonicalScalar(seq(result))
+
+//@ assume func (k Key) Public
+//@   panics when !CanonicalScalar(seq(k))
+//@   modifies nothing
+//@   ensures seq(result) == PublicOf(seq(k))
+
+//@ func (h Hash) ForNetwork
+//@   property C30
+//@   pure
+//@   ensures result == Blake3Of(cat(seq(net), seq(h)))
+
+//@ uninterp SignOf(priv mathint, message mathint) mathint
+
+//@ assume func (privateKey *Key) Sign(message)
+//@   -- deterministic signature (nonce derived by hashing): a function of the private key and the message
+//@   requires privateKey != nil
+//@   modifies nothing
+//@   ensures seq(result) == SignOf(seq(*privateKey), seq(message))
